@@ -19,12 +19,17 @@ func Chunk[T any](s []T, chunkSize int) [][]T {
 	if chunkSize <= 0 {
 		panic("xslices.Chunk: chunkSize must be positive")
 	}
-	out := make([][]T, (len(s)+chunkSize-1)/chunkSize)
+	// (Not (len(s)+chunkSize-1)/chunkSize: that overflows for a chunkSize near the largest int.)
+	n := len(s) / chunkSize
+	if len(s)%chunkSize != 0 {
+		n++
+	}
+	out := make([][]T, n)
 	for i := range out {
 		start := i * chunkSize
-		end := (i + 1) * chunkSize
-		if end > len(s) {
-			end = len(s)
+		end := len(s)
+		if len(s)-start > chunkSize {
+			end = start + chunkSize
 		}
 		out[i] = s[start:end]
 	}
